@@ -994,7 +994,7 @@ func (g *gen) nextOps() []Op {
 	case x < 85:
 		return []Op{{K: "evict", Old: -1, Expired: subset(r, c.NAccts, 50)}}
 	case x < 91:
-		op := Op{K: "remove", Old: -1, Oob: r.Bool()}
+		op := Op{K: "remove", Old: -1, Oob: true} // outofbound=false is only legal right after a heap pop
 		ids := g.allIDs()
 		if len(ids) > 0 && !r.Chance(10) {
 			op.Tx = ids[r.Intn(len(ids))]
